@@ -16,6 +16,7 @@ was repaired in /repo (`fix:` 3bee7fb); the model follows the repaired code, no 
 class any more, and `swapped_positive_peak_witness` states the repaired behaviour on the old witness.
 -/
 import IblVerif.Lemmas.FeaturesMain
+import IblVerif.Lemmas.FeaturesCall
 import Mathlib.Tactic.IntervalCases
 
 namespace IblVerif.C14
@@ -339,6 +340,248 @@ theorem batch_independent (k T : Nat) (ws : List Wave) (hne : ws ≠ []) (fs : L
   · rintro ⟨h1, h2⟩
     exact ⟨h1, fun i w f hw hf => (hsingle w f).mp (h2 i w f hw hf)⟩
 
+
+/-! ### the whole call: recovery offset, stage sequence, complete feature table (`Model/FeaturesCall.lean`)
+
+`Features.call rdNum rdDen fs T raw` models `compute_spike_features(arr_in, fs, recovery_duration_ms = rdNum / rdDen)` as the
+interpretation of the list of stage calls of the function body (`Features.stages`; `Tie/C14.lean` proves that list equal to
+the event sequence generated from the source text) and returns every column of the data frame. -/
+
+/-- The recovery offset `int(round(recovery_duration_ms * fs / 1000))` is the integer nearest to
+`recovery_duration_ms · fs / 1000` (`n / d` below), the even one on an exact tie; it is non-negative for non-negative
+arguments, and every integer strictly nearer than half a sample is it. -/
+theorem recovery_offset_nearest (rdNum rdDen fs : Int) (hd : 0 < rdDen) :
+    let k := recoveryOffset rdNum rdDen fs
+    let n := rdNum * fs
+    let d := rdDen * 1000
+    2 * (k * d - n) ≤ d ∧ 2 * (n - k * d) ≤ d ∧
+    ((2 * (k * d - n) = d ∨ 2 * (n - k * d) = d) → k % 2 = 0) ∧
+    (0 ≤ rdNum → 0 ≤ fs → 0 ≤ k) ∧
+    ∀ j : Int, 2 * (j * d - n) < d → 2 * (n - j * d) < d → k = j := by
+  intro k n d
+  have hd' : 0 < d := by show 0 < rdDen * 1000; omega
+  obtain ⟨h1, h2, h3⟩ := roundHalfEven_pos n d hd'
+  refine ⟨h1, h2, h3, ?_, fun j a b => roundHalfEven_unique n d j hd' a b⟩
+  intro hr hf
+  have hn : 0 ≤ n := Int.mul_nonneg hr hf
+  by_contra hneg
+  have hk : k + 1 ≤ 0 := by omega
+  have : (k + 1) * d ≤ 0 * d := Int.mul_le_mul_of_nonneg_right hk (by omega)
+  rw [Int.add_mul, Int.one_mul, Int.zero_mul] at this
+  have h2' : 2 * (n - k * d) ≤ d := h2
+  omega
+
+/-- The call model – the stage list of `compute_spike_features` interpreted stage by stage, with the offset computed by the
+model – is the batch pipeline of all theorems above followed by the derived columns of every row (errors included). -/
+theorem call_is_batch_then_derived_columns (rdNum rdDen fs : Int) (T : Nat) (raw : List (List (List (Option ℚ))))
+    (hk : 0 ≤ recoveryOffset rdNum rdDen fs) :
+    call rdNum rdDen fs T raw =
+      (liftE (batchRaw (recoveryOffset rdNum rdDen fs).toNat T raw)).map (List.map (fullRow fs)) :=
+  call_eq rdNum rdDen fs T raw hk
+
+/-- Scaling the input of the call by `c > 0` (NaN stays NaN): value columns and the three slopes × c; every index, the
+peak-to-trough ratio and both durations unchanged; success unchanged. -/
+theorem call_scale_equivariant (rdNum rdDen fs : Int) (T : Nat) (raw : List (List (List (Option ℚ)))) (c : ℚ) (hc : 0 < c)
+    (hk : 0 ≤ recoveryOffset rdNum rdDen fs) :
+    (call rdNum rdDen fs T (raw.map (scaleRaw c))).toOption =
+      (call rdNum rdDen fs T raw).toOption.map (List.map (FullRow.scale c)) := by
+  rw [call_eq _ _ _ _ _ hk, call_eq _ _ _ _ _ hk, toOption_map', toOption_map', toOption_liftE, toOption_liftE]
+  unfold batchRaw
+  have hv : (raw.map (scaleRaw c)).map validate = (raw.map validate).map (scaleWave c) := by
+    simp only [List.map_map]
+    apply List.map_congr_left; intro w _
+    exact validate_scale c w
+  rw [hv, scale_equivariant _ _ _ c hc, Option.map_map, Option.map_map]
+  congr 1
+  funext l
+  simp only [Function.comp, List.map_map]
+  apply List.map_congr_left; intro f _
+  exact fullRow_scale hc fs f
+
+/-- Batch independence of the complete table: the call succeeds on a batch exactly when it succeeds on every waveform
+alone, and row `i` (all columns, derived ones included) is what waveform `i` alone gives. -/
+theorem call_batch_independent (rdNum rdDen fs : Int) (T : Nat) (raw : List (List (List (Option ℚ)))) (hne : raw ≠ [])
+    (hk : 0 ≤ recoveryOffset rdNum rdDen fs) (rows : List FullRow) :
+    call rdNum rdDen fs T raw = .ok rows ↔ rows.length = raw.length ∧
+      ∀ (i : Nat) w r, raw[i]? = some w → rows[i]? = some r → call rdNum rdDen fs T [w] = .ok [r] := by
+  have hne' : raw.map validate ≠ [] := by simpa using hne
+  have hsingle : ∀ w r, call rdNum rdDen fs T [w] = .ok [r] ↔
+      batch (recoveryOffset rdNum rdDen fs).toNat T [validate w] = .ok [r.feat] ∧ r = fullRow fs r.feat := by
+    intro w r
+    rw [call_eq _ _ _ _ _ hk, liftE_map_ok_iff]
+    unfold batchRaw
+    simp only [List.map_cons, List.map_nil]
+    constructor
+    · rintro ⟨fl, hfl, hr⟩
+      cases fl with
+      | nil => simp at hr
+      | cons f tl =>
+        cases tl with
+        | nil =>
+          simp only [List.map_cons, List.map_nil, List.cons.injEq, and_true] at hr
+          subst hr
+          exact ⟨hfl, rfl⟩
+        | cons g tl => simp at hr
+    · rintro ⟨h1, h2⟩
+      exact ⟨[r.feat], h1, by simp only [List.map_cons, List.map_nil]; rw [← h2]⟩
+  rw [call_eq _ _ _ _ _ hk, liftE_map_ok_iff]
+  unfold batchRaw
+  constructor
+  · rintro ⟨fl, hfl, rfl⟩
+    obtain ⟨hl, hi⟩ := (batch_independent _ T _ hne' fl).mp hfl
+    refine ⟨by simpa using hl, ?_⟩
+    intro i w r hw hr
+    rw [List.getElem?_map] at hr
+    cases hf : fl[i]? with
+    | none => rw [hf] at hr; cases hr
+    | some f =>
+      rw [hf] at hr
+      simp only [Option.map_some, Option.some.injEq] at hr
+      subst hr
+      rw [hsingle]
+      exact ⟨hi i (validate w) f (by rw [List.getElem?_map, hw]; rfl) hf, rfl⟩
+  · rintro ⟨hl, hi⟩
+    refine ⟨rows.map (·.feat), ?_, ?_⟩
+    · rw [batch_independent _ T _ hne']
+      refine ⟨by simpa using hl, ?_⟩
+      intro i w f hw hf
+      rw [List.getElem?_map] at hw hf
+      cases hw0 : raw[i]? with
+      | none => rw [hw0] at hw; cases hw
+      | some w0 =>
+        cases hr0 : rows[i]? with
+        | none => rw [hr0] at hf; cases hf
+        | some r0 =>
+          rw [hw0] at hw; rw [hr0] at hf
+          simp only [Option.map_some, Option.some.injEq] at hw hf
+          subst hw hf
+          exact ((hsingle w0 r0).mp (hi i w0 r0 hw0 hr0)).1
+    · apply List.ext_getElem (by simp)
+      intro i h1 h2
+      simp only [List.getElem_map]
+      have hi1 : i < raw.length := by omega
+      exact ((hsingle raw[i] rows[i]).mp (hi i _ _ (List.getElem?_eq_getElem hi1) (List.getElem?_eq_getElem h1))).2
+
+/-- Channel permutation and the complete table: under the hypotheses of `channel_perm`, the call on the permuted batch
+succeeds and every column other than `peak_trace_idx` – ratio, durations and slopes included – is unchanged. -/
+theorem call_channel_perm (rdNum rdDen fs : Int) (T : Nat) (raw raw' : List (List (List (Option ℚ)))) (rows : List FullRow)
+    (hB : RectBatch T (raw.map validate)) (hlen : raw'.length = raw.length)
+    (hperm : ∀ (i : Nat) w w', raw[i]? = some w → raw'[i]? = some w' → w.Perm w')
+    (hu : ∀ w ∈ raw, UniqueMaxChannel T (validate w)) (hk : 0 ≤ recoveryOffset rdNum rdDen fs)
+    (h : call rdNum rdDen fs T raw = .ok rows) :
+    ∃ rows', call rdNum rdDen fs T raw' = .ok rows' ∧ rows'.length = rows.length ∧
+      ∀ (i : Nat) r r', rows[i]? = some r → rows'[i]? = some r' →
+        { r' with feat := { r'.feat with peakTrace := r.feat.peakTrace } } = r := by
+  rw [call_eq _ _ _ _ _ hk, liftE_map_ok_iff] at h
+  obtain ⟨fl, hfl, rfl⟩ := h
+  unfold batchRaw at hfl
+  have hp : ∀ (i : Nat) w w', (raw.map validate)[i]? = some w → (raw'.map validate)[i]? = some w' → w.Perm w' := by
+    intro i w w' hw hw'
+    rw [List.getElem?_map] at hw hw'
+    cases h0 : raw[i]? with
+    | none => rw [h0] at hw; cases hw
+    | some a =>
+      cases h1 : raw'[i]? with
+      | none => rw [h1] at hw'; cases hw'
+      | some b =>
+        rw [h0] at hw; rw [h1] at hw'
+        simp only [Option.map_some, Option.some.injEq] at hw hw'
+        subst hw hw'
+        exact (hperm i a b h0 h1).map _
+  have hu' : ∀ w ∈ raw.map validate, UniqueMaxChannel T w := by
+    intro w hw
+    obtain ⟨a, ha, rfl⟩ := List.mem_map.mp hw
+    exact hu a ha
+  obtain ⟨fl', hfl', hlen', hrow⟩ := channel_perm _ T _ (raw'.map validate) fl hB (by simpa using hlen) hp hu' hfl
+  refine ⟨fl'.map (fullRow fs), ?_, by simpa using hlen', ?_⟩
+  · rw [call_eq _ _ _ _ _ hk, liftE_map_ok_iff]
+    exact ⟨fl', hfl', rfl⟩
+  · intro i r r' hr hr'
+    rw [List.getElem?_map] at hr hr'
+    cases hf : fl[i]? with
+    | none => rw [hf] at hr; cases hr
+    | some f =>
+      cases hf' : fl'[i]? with
+      | none => rw [hf'] at hr'; cases hr'
+      | some f' =>
+        rw [hf] at hr; rw [hf'] at hr'
+        simp only [Option.map_some, Option.some.injEq] at hr hr'
+        subst hr hr'
+        have hl := batch_length hB.1 hfl
+        have hi : i < fl.length := (List.getElem?_eq_some_iff.mp hf).1
+        have hiw : i < (raw.map validate).length := by omega
+        have hiw' : i < (raw'.map validate).length := by simp only [List.length_map] at hiw ⊢; omega
+        have := (hrow i _ _ f f' (List.getElem?_eq_getElem hiw) (List.getElem?_eq_getElem hiw') hf hf').1
+        show { fullRow fs f' with feat := { f' with peakTrace := f.peakTrace } } = fullRow fs f
+        rw [← fullRow_setTrace, this]
+
+/-- Signs of the two durations (`fs > 0`): the peak-to-trough duration is non-negative, zero exactly when the trough is the
+peak sample; when a half-peak sample exists on both sides of the peak the half-peak duration is positive. -/
+theorem durations_sign (k T : Nat) (ws : List Wave) (fs : List Feat) (hB : RectBatch T ws)
+    (h : batch k T ws = .ok fs) (i : Nat) (w : Wave) (f : Feat) (hw : ws[i]? = some w) (hf : fs[i]? = some f)
+    (rate : ℚ) (hr : 0 < rate) :
+    0 ≤ f.peakToTroughDuration rate ∧ (f.peakToTroughDuration rate = 0 ↔ f.troughTime = f.peakTime) ∧
+    ((∃ t, f.peakTime ≤ t ∧ t < T ∧ WithinHalf f.peakVal (smp w f.peakTrace t)) →
+      (∃ t, t < f.peakTime ∧ WithinHalf f.peakVal (smp w f.peakTrace t)) → 0 < f.halfPeakDuration rate) := by
+  obtain ⟨_, hpt, _⟩ := tip_lt_peak_le_trough k T ws fs hB h f (List.mem_of_getElem? hf)
+  obtain ⟨hpost, hpre, _, _⟩ := half_peak_nearest k T ws fs hB h i w f hw hf
+  have hd : (0 : ℚ) ≤ idiff f.troughTime f.peakTime := by
+    unfold idiff; exact_mod_cast (by omega : (0 : Int) ≤ (f.troughTime : Int) - (f.peakTime : Int))
+  refine ⟨div_nonneg hd (le_of_lt hr), ?_, ?_⟩
+  · unfold Feat.peakToTroughDuration
+    rw [div_eq_zero_iff]
+    constructor
+    · rintro (h0 | h0)
+      · unfold idiff at h0
+        have : (f.troughTime : Int) - (f.peakTime : Int) = 0 := by exact_mod_cast h0
+        omega
+      · exact absurd h0 (ne_of_gt hr)
+    · intro h0; left; unfold idiff; rw [h0]; simp
+  · intro e1 e2
+    obtain ⟨a1, _, _, _⟩ := hpost e1
+    obtain ⟨b1, _, _⟩ := hpre e2
+    have : (0 : ℚ) < idiff f.halfPost f.halfPre := by
+      unfold idiff; exact_mod_cast (by omega : (0 : Int) < (f.halfPost : Int) - (f.halfPre : Int))
+    exact div_pos this hr
+
+/-- When the slope columns are finite (`fs ≠ 0`): the depolarisation slope always is (tip precedes peak); the
+repolarisation slope exactly when the trough is not the peak sample, the recovery slope exactly when the recovery point is
+not the trough sample – otherwise the float division gives inf / NaN (`XRat.pinf / ninf / nan`), as in the code. -/
+theorem slopes_finite_iff (k T : Nat) (ws : List Wave) (fs : List Feat) (hB : RectBatch T ws)
+    (h : batch k T ws = .ok fs) (f : Feat) (hf : f ∈ fs) (rate : ℚ) (hr : rate ≠ 0) :
+    (∃ q, f.depolSlope rate = .val q) ∧
+    ((∃ q, f.repolSlope rate = .val q) ↔ f.troughTime ≠ f.peakTime) ∧
+    ((∃ q, f.recoverySlope rate = .val q) ↔ f.recTime ≠ f.troughTime) := by
+  obtain ⟨htip, _, _⟩ := tip_lt_peak_le_trough k T ws fs hB h f hf
+  have key : ∀ (a : ℚ) (t1 t0 : Nat), (∃ q, xdiv a (idiff t1 t0 / rate) = .val q) ↔ t1 ≠ t0 := by
+    intro a t1 t0
+    have hz : idiff t1 t0 / rate = 0 ↔ t1 = t0 := by
+      rw [div_eq_zero_iff]
+      constructor
+      · rintro (h0 | h0)
+        · unfold idiff at h0
+          have : (t1 : Int) - (t0 : Int) = 0 := by exact_mod_cast h0
+          omega
+        · exact absurd h0 hr
+      · intro h0; left; unfold idiff; rw [h0]; simp
+    unfold xdiv
+    by_cases h0 : t1 = t0
+    · have hzz := hz.mpr h0
+      simp only [h0, ne_eq, not_true_eq_false, iff_false]
+      rintro ⟨q, hq⟩
+      rw [h0] at hzz
+      rw [if_pos hzz] at hq
+      by_cases ha : a = 0
+      · rw [if_pos ha] at hq; cases hq
+      · rw [if_neg ha] at hq
+        by_cases hp : 0 < a
+        · rw [if_pos hp] at hq; cases hq
+        · rw [if_neg hp] at hq; cases hq
+    · have : ¬ idiff t1 t0 / rate = 0 := fun hh => h0 (hz.mp hh)
+      simp only [this, if_false, ne_eq, h0, not_false_eq_true, iff_true]
+      exact ⟨_, rfl⟩
+  refine ⟨(key _ _ _).mpr (by omega), key _ _ _, key _ _ _⟩
+
 /-! ### non-vacuity: the hypotheses are satisfiable on non-trivial batches -/
 
 /-- a two-waveform batch (one negative spike; one weakly positive two-channel spike that is swapped)
@@ -394,5 +637,29 @@ example :
   have : c' = 1 := by omega
   subst this
   interval_cases t' <;> decide +kernel
+
+/-- the call model on the two-waveform batch above with a NaN-padded extra channel (`recovery_duration_ms = 2`, `fs = 1000`:
+offset 2 ≥ 0, the hypothesis of the call-level theorems): all 20 columns, with an `inf` ratio (zero trough) in the second row -/
+example :
+    let raw : List (List (List (Option ℚ))) :=
+      [[[some 0, some 1, some (-10), some 4, some 1, some 0], [none, none, none, none, none, none]],
+       [[some 0, some 1, some 9, some (-8), some 0, some 0], [some 0, some 0, some 1, some 1, some 0, some 0]]]
+    0 ≤ recoveryOffset 2 1 1000 ∧
+    call 2 1 1000 6 raw = .ok
+      [⟨⟨0, 2, -10, 1, 3, 4, 1, 1, 3, 1, 4, 1, 5, 0⟩, .val (5 / 2), 1 / 1000, 1 / 500, .val (-11000), .val 14000, .val (-2000)⟩,
+       ⟨⟨0, 3, -8, 1, 4, 0, 2, 9, 4, 2, 0, 9, 5, 0⟩, .pinf, 1 / 1000, 1 / 500, .val (-17000), .val 8000, .val 0⟩] := by
+  decide +kernel
+
+/-- recovery offsets: the defaults (0.16 ms at 30 kHz: 4.8 → 5), exact ties go to the even integer (2.5 → 2, 3.5 → 4) -/
+example : recoveryOffset 4 25 30000 = 5 ∧ recoveryOffset 5 2 1000 = 2 ∧ recoveryOffset 7 2 1000 = 4 ∧
+    (stages 5).map Stage.event = [("find_peak", []), ("get_array_peak", []), ("invert_peak_waveform", []),
+      ("find_tip_trough", []), ("peak_to_trough_duration", []), ("half_peak_point", []), ("half_peak_duration", []),
+      ("recovery_point", [5]), ("polarisation_slopes", []), ("recovery_slope", [])] := by
+  decide +kernel
+
+/-- a different order of the stage calls is outside the modelled call sequences -/
+example : runStages 6 1000 [.findPeak, .getArrayPeak, .invertPeakWaveform, .halfPeakPoint] (.start [[[0, 1, -10, 4, 1, 0]]])
+    = .error .order := by
+  decide +kernel
 
 end IblVerif.C14
